@@ -80,11 +80,35 @@ def writer_roles(t, root, out):
     out.setdefault(fp, set()).add(('subject', None))
 
 
+STRUCTURAL = ('subject', 'unwrap_envelope', 'try_unwrap', 'wrap_envelope', 'as_object', 'as_predicate', 'try_object', 'try_predicate', 'object', 'predicate',
+              'elide', 'compress', 'uncompress', 'assertions')
+
+
+def _path_to(t, target):
+    """names of the calls on the way from term t down to the sub-term `target` (None if not inside)"""
+    if t is target:
+        return []
+    if not isinstance(t, tuple):
+        return None
+    for x in t:
+        if isinstance(x, tuple):
+            p_ = _path_to(x, target)
+            if p_ is not None:
+                return ([call_name(t)] if t and t[0] == 'call' else []) + p_
+    return None
+
+
 def leaf_role(t):
-    for x in walk(strip_sites(t)):
+    st = strip_sites(t)
+    for x in walk(st):
         if isinstance(x, tuple) and x and x[0] == 'call':
             nm = call_name(x)
             if nm.endswith('_for_predicate') or nm.endswith('for_predicate_with_default'):
+                # the field is the conversion of exactly the looked-up object: a structural accessor in between (subject(), unwrap ..)
+                # reads a part of the object instead, and what the writer put around that part is lost
+                between = [n for n in (_path_to(st, x) or []) if n in STRUCTURAL]
+                if between:
+                    return ('pred-part', '%s via %s' % (const_name(x[2][1]), '/'.join(between)))
                 return ('pred', const_name(x[2][1]))
     for x in walk(strip_sites(t)):
         if isinstance(x, tuple) and x and x[0] == 'call' and call_name(x) == 'try_into_expected_tagged_value':
